@@ -2,6 +2,12 @@ import GeodeVerif.Num.PyF
 /-!
 # Hand model of `/repo/geodepy/angles.py` (properties C08, C12)
 
+VERSION MODELLED: the working tree of /repo WITH `tools/proposed_fixes/C08-1.diff` (DMS/DDM `.hp()`
+through `dec2hp`) and `C08-2.diff` (`_hp_fields`: HP digits read from the shortest decimal form of
+the float; `hp2dms`/`hp2ddm` built from those fields; `dec2hp` carries at 8 decimals from 512°;
+`hp2dec_v` rounds to 9 decimals from 512°) applied. Against the unpatched tree the correspondence
+reports disagreements exactly on those functions.
+
 ONE generic model over an explicit arithmetic class `AngArith α`; two instances:
 
 * `Float` (this file) — bit-exact CPython behaviour: IEEE `+ − × ÷`, `divmod`/`%` exactly as
@@ -171,7 +177,7 @@ end PyNum
 
 /-! ## Constructors with sign inference -/
 
-/-- `DMSAngle(degree, minute, second, positive)` for numeric `degree` (angles.py 536–570) -/
+/-- `DMSAngle(degree, minute, second, positive)` for numeric `degree` -/
 def mkDMS (degree minute second : PyNum α) (positive : Option Bool) : DMS α :=
   -- if positive is False or str(degree)[0] == '-': positive = False else True
   let p0 : Bool := !((positive == some false) || degree.strNeg)
@@ -183,7 +189,7 @@ def mkDMS (degree minute second : PyNum α) (positive : Option Bool) : DMS α :=
   { positive := p1, degree := degree.toInt.natAbs, minute := minute.toInt.natAbs,
     second := second.absF }
 
-/-- `DDMAngle(degree, minute, positive)` for numeric `degree` (angles.py 745–773) -/
+/-- `DDMAngle(degree, minute, positive)` for numeric `degree` -/
 def mkDDM (degree minute : PyNum α) (positive : Option Bool) : DDM α :=
   let p0 : Bool := !((positive == some false) || degree.strNeg)
   let p1 : Bool :=
@@ -221,7 +227,7 @@ def mkHP (hp : α) : Except PyErr (AngleObj α) :=
 
 /-! ## Number-level conversions -/
 
-/-- `dec2hp` (angles.py 947–978) -/
+/-- `dec2hp` -/
 def dec2hp (dec : α) : α :=
   let ms := divmod (absv dec * ofNat 3600) (ofNat 60)   -- minute, second
   let dm := divmod ms.1 (ofNat 60)                      -- degree, minute
@@ -251,13 +257,13 @@ def dec2gon (dec : α) : α := natDiv 10 9 * dec
 /-- `gon2dec`: `9/10 * gon` -/
 def gon2dec (gon : α) : α := natDiv 9 10 * gon
 
-/-- `dec2dms` (angles.py 1014–1025) -/
+/-- `dec2dms` -/
 def dec2dms (dec : α) : DMS α :=
   let ms := divmod (absv dec * ofNat 3600) (ofNat 60)
   let dm := divmod ms.1 (ofNat 60)
   mkDMS (.flt dm.1) (.flt dm.2) (.flt ms.2) (some (leb (ofNat 0) dec))
 
-/-- `dec2ddm` (angles.py 1028–1039) -/
+/-- `dec2ddm` -/
 def dec2ddm (dec : α) : DDM α :=
   let ms := divmod (absv dec * ofNat 3600) (ofNat 60)
   let dm := divmod ms.1 (ofNat 60)
@@ -284,14 +290,14 @@ def hp2ddm (hp : α) : DDM α :=
   let minute : α := ofNat f.min + f.sec / ofNat 60
   mkDDM (.int f.deg) (.flt minute) (some (leb (ofNat 0) hp))
 
-/-- `dd2sec` (angles.py 1224–1233) -/
+/-- `dd2sec` -/
 def dd2sec (dd : α) : α :=
   let ms := divmod (absv dd * ofNat 3600) (ofNat 60)
   let dm := divmod ms.1 (ofNat 60)
   let sec := dm.1 * ofNat 3600 + dm.2 * ofNat 60 + ms.2
   if leb (ofNat 0) dd then sec else -sec
 
-/-- `dec2hp_v` on one array element (angles.py 1236–1249) -/
+/-- `dec2hp_v` on one array element -/
 def dec2hp_v1 (dec : α) : α :=
   let ms := divmod (absv dec * ofNat 3600) (ofNat 60)
   let dm := divmod ms.1 (ofNat 60)
@@ -305,7 +311,7 @@ def dec2hp_v1 (dec : α) : α :=
   let hp := degree + minute / ofNat 100 + second / ofNat 10000
   if leb dec (ofNat 0) then -hp else hp                        -- hp[dec <= 0] = -hp[dec <= 0]
 
-/-- `hp2dec_v` on one array element (angles.py 1252–1257) -/
+/-- `hp2dec_v` on one array element -/
 def hp2dec_v1 (hp : α) : α :=
   let scaled := npRound 10 (absv hp * ofNat 1000)
   -- scaled[abs(hp) >= 512] = scaled[abs(hp) >= 512].round(9)
